@@ -8,9 +8,11 @@ use crate::report::{par_run, Report};
 use crate::rng::Rng;
 use serde_json::json;
 
-pub const RULE: &str = "All 22 indicators, periods 1..=8 for every (prefix kind x level x feed form) combination plus sampled larger periods: an active prefix (none = stream start, after-reset, random walk, spikes 1e6x the level, alternating decades) followed by flat stretches (all price fields equal; lengths 3n+3, 100, 1100, 5000) at levels {1e-3,0.1,1,37.5,1e6}, and for bars also zero-volume stretches with moving prices. Judged at every step of a stretch at which the harness's own copy of the window is degenerate (all n, or n+1 for ROC/ER/MFI, prices equal, or zero money flow), and at every step of the stretch for the EMA-based indicators: output finite and inside the documented range; exactly 50 (FAST), 0 (CCI, ROC, TR); MAD <= tau(t)*M; SD <= sqrt(tau(t))*M; BB bands within |k|*sqrt(tau(t))*M of the average. Non-trivial: a stretch preceded by activity (or at stream start / after reset) with >= 1 degenerate-window step; distinct by construction (combination index) .";
+pub const RULE: &str = "All 22 indicators, periods 1..=8 for every (prefix kind x level x feed form) combination plus sampled larger periods: an active prefix (none = stream start, after-reset, random walk, spikes 1e6x the level, alternating decades) followed by flat stretches (all price fields equal; lengths 3n+3, 100, 1100, 5000) at levels {1e-3,0.1,1,37.5,1e6,-37.5,-1e-3,0 (0 not for ROC/PPO)}, and for bars also zero-volume stretches with moving prices. Judged at every step of a stretch at which the harness's own copy of the window is degenerate (all n, or n+1 for ROC/ER/MFI, prices equal, or zero money flow), and at every step of the stretch for the EMA-based indicators: output finite and inside the documented range; exactly 50 (FAST), 0 (CCI, ROC, TR); MAD <= tau(t)*M; SD <= sqrt(tau(t))*M; BB bands within |k|*sqrt(tau(t))*M of the average. Non-trivial: a stretch preceded by activity (or at stream start / after reset) with >= 1 degenerate-window step; distinct by construction (combination index) .";
 
-pub const LEVELS: [f64; 5] = [1e-3, 0.1, 1.0, 37.5, 1e6];
+/// flat price levels: positive ones of several magnitudes, two negative ones (spreads, de-meaned series)
+/// and exactly zero (the latter not for ROC and PPO, whose formula divides by the price level itself)
+pub const LEVELS: [f64; 8] = [1e-3, 0.1, 1.0, 37.5, 1e6, -37.5, -1e-3, 0.0];
 
 #[derive(Clone, Copy, Debug, PartialEq)]
 pub enum Prefix {
@@ -86,6 +88,21 @@ pub fn build(p: &Params, bars: bool, prefix: Prefix, level: f64, zero_volume_str
             }
         }
     };
+    // activity around the level: its scale is |level| (1 for the zero level); negative levels get
+    // negated activity so the stream stays on one side of zero
+    let (level_scale, sign) = if level == 0.0 { (1.0, 1.0) } else { (level.abs(), level.signum()) };
+    let mk_active = |rng: &mut Rng, len: usize, _scale: f64, inputs: &mut Vec<In>, flags: &mut Vec<bool>, spikes: bool, alt: bool| {
+        let start = inputs.len();
+        mk_active(rng, len, level_scale, inputs, flags, spikes, alt);
+        if sign < 0.0 {
+            for x in inputs[start..].iter_mut() {
+                *x = match x {
+                    In::S(v) => In::S(-*v),
+                    In::B(b) => In::B(Bar { o: -b.o, h: -b.l, l: -b.h, c: -b.c, v: b.v }),
+                };
+            }
+        }
+    };
     let plen = 2 * n + 3 + rng.below(2 * n + 2);
     match prefix {
         Prefix::None => {}
@@ -101,9 +118,10 @@ pub fn build(p: &Params, bars: bool, prefix: Prefix, level: f64, zero_volume_str
     let stretch = |len: usize, inputs: &mut Vec<In>, flags: &mut Vec<bool>, rng: &mut Rng| {
         if zero_volume_stretch && bars {
             // moving prices, no volume: no money flow in the window
-            let mut g = BarGen::new(BarStyle::Mixed, level / 30.0, rng.u64());
+            let mut g = BarGen::new(BarStyle::Mixed, level_scale / 30.0, rng.u64());
             for _ in 0..len {
                 let b = g.next();
+                let b = if sign < 0.0 { Bar { o: -b.o, h: -b.l, l: -b.h, c: -b.c, v: b.v } } else { b };
                 inputs.push(In::B(Bar { v: 0.0, ..b }));
                 flags.push(true);
             }
@@ -273,6 +291,9 @@ pub fn run(ctx: &Ctx) -> Report {
         for n in periods {
             for (pi, prefix) in prefixes.iter().enumerate() {
                 for (li, level) in LEVELS.iter().enumerate() {
+                    if *level == 0.0 && matches!(kind, Kind::Roc | Kind::Ppo) {
+                        continue;
+                    }
                     for bars in [false, true] {
                         if !bars && !kind.has_scalar() {
                             continue;
